@@ -91,6 +91,10 @@ impl Eng {
         })
     }
     pub fn create_edge(&mut self, a: u32, b: u32) -> String {
+        // one relationship per (a, b): creating the same one twice is another property's business (C06)
+        if self.engine.is_some() && self.edges.contains(&(a, b)) {
+            return "ok".into();
+        }
         self.guarded(|s| {
             {
                 let mut tx = s.eng().begin_write();
